@@ -69,6 +69,23 @@ class SceneFiles:
         self.labels_path = os.path.join(self.dir, "labels.slp")
         sio.save_slp(self.labels, self.labels_path)
         self.labeled_keys = [(v, f) for (v, f), poses in sorted(poses_by_frame.items()) if any(not np.isnan(p).all() for p in poses)]
+        self.poses_by_frame = poses_by_frame
+
+    def write_labels(self, order, name, keep_empty=True):
+        """Write a labels file whose labeled frames are listed in `order` (list of (video, frame) keys)."""
+        import sleap_io as sio
+
+        lfs = []
+        for (v, f) in order:
+            poses = self.poses_by_frame.get((v, f), [])
+            insts = [synth.user_instance(p, self.skel) for p in poses if not np.isnan(p).all()]
+            if not insts and not keep_empty:
+                continue
+            lfs.append(sio.LabeledFrame(video=self.videos[v], frame_idx=f, instances=insts))
+        labels = sio.Labels(labeled_frames=lfs, videos=list(self.videos), skeletons=[self.skel])
+        path = os.path.join(self.dir, name)
+        sio.save_slp(labels, path)
+        return path
 
 
 def base_cfg(scale=1.0, max_height=None, max_width=None, max_stride=16, crop_hw=None):
@@ -122,12 +139,12 @@ def bottomup_predictor(sf, cms_stride, paf_stride, sigma, paf_sigma, scale, max_
     return pred, net
 
 
-def run(pred, provider, sf, video=0, queue_maxsize=4, timeout=120):
+def run(pred, provider, sf, video=0, queue_maxsize=4, timeout=120, labels_path=None, start=None, end=None):
     """make_pipeline + predict(make_labels=False) with a watchdog; returns list of output dicts."""
     import threading
 
-    path = sf.labels_path if provider == "LabelsReader" else sf.video_paths[video]
-    pred.make_pipeline(provider, path, queue_maxsize=queue_maxsize)
+    path = (labels_path or sf.labels_path) if provider == "LabelsReader" else sf.video_paths[video]
+    pred.make_pipeline(provider, path, queue_maxsize=queue_maxsize, video_start_idx=start, video_end_idx=end)
     box = {}
 
     def work():
